@@ -326,8 +326,12 @@ Lemma case_meaning_scales :
   (forall (mn mx : Q), lf_emax mn mx =
    (snd (log_fold mn mx))%Q) /\
   (lg_tolv =
-   (fun v : Q => e9 * Qabs v)%Q).
-Proof. repeat match goal with |- _ /\ _ => split end; intros; reflexivity. Qed.
+   (fun v : Q => e9 * Qabs v)%Q) /\
+  (* the minor ticks: TicksAtLevel(l < 0) on the folded positive domain [emin, emax] *)
+  (forall b e emin emax ro l v, (2 <= b)%Z -> (l < 0)%Z ->
+     (In v (log_ticks_pos b e emin emax ro l) <->
+      exists k j, (le_out_lo e <= k <= le_out_hi e)%Z /\ (1 <= j <= b - 1)%Z /\ v = inject_Z j * qpow b k /\ emin <= v /\ v <= emax)).
+Proof. repeat match goal with |- _ /\ _ => split end; intros; first [reflexivity | now apply log_minor_ticks_spec]. Qed.
 
 (* the borderline rule (verdict code 1): Linear: outside the near_round window of every floor/ceil decision
    the admissible comparison implies the exact one *)
